@@ -247,12 +247,23 @@ func (s *Server) ListenAndServeTLS() error {
 //
 // Close returns any error returned from closing the server's underlying
 // listener(s).
-func (s *Server) Close() error {
+// markClosed closes s.done. It reports false if the server was already closed.
+func (s *Server) markClosed() bool {
+	s.locker.Lock()
+	defer s.locker.Unlock()
+
 	select {
 	case <-s.done:
-		return ErrServerClosed
+		return false
 	default:
 		close(s.done)
+		return true
+	}
+}
+
+func (s *Server) Close() error {
+	if !s.markClosed() {
+		return ErrServerClosed
 	}
 
 	var err error
@@ -279,11 +290,8 @@ func (s *Server) Close() error {
 // Shutdown returns the context's error, otherwise it returns any
 // error returned from closing the Server's underlying Listener(s).
 func (s *Server) Shutdown(ctx context.Context) error {
-	select {
-	case <-s.done:
+	if !s.markClosed() {
 		return ErrServerClosed
-	default:
-		close(s.done)
 	}
 
 	var err error
